@@ -124,6 +124,9 @@ func runSessionsOracle(sessions []*Session, key *isoKey) (string, *Witness) {
 			for _, r := range op.Orders {
 				sites[siteFileLine(r.Site)] = true
 			}
+			if op.Clock != nil {
+				sites["simulated-clock-or-randomness"] = true
+			}
 		}
 		r := runSession(s, false)
 		for _, o := range r.obs {
